@@ -766,8 +766,14 @@ func shapedScenario(tr *vh.Trace, rnd *rand.Rand, n int, nother int, style nasty
 	s := newScen(tr, rnd, keys, fmt.Sprintf("shaped/%s/n%d/others%d", style, n, nother))
 	var aRanks, oRanks []int
 	low := []int{0, 0, 1, 3}[rnd.Intn(4)] // the merge starts with slots of another input
+	quiet := 0
+	if uniform {
+		// the first 0..4 chunks of A are not interleaved with the other inputs: after the first chunk
+		// (slot by slot) they are passed through or copied whole, the merge buffer stays small
+		quiet = rnd.Intn(5) * 18
+	}
 	for r := 1; r <= s.K; r++ {
-		if rnd.Float64() < psp || r <= low {
+		if (rnd.Float64() < psp && r > quiet) || r <= low {
 			oRanks = append(oRanks, r)
 			if rnd.Intn(2) == 0 { // the reserved key exists in the base state: update / delete
 				id, _ := s.newOff()
@@ -847,9 +853,11 @@ func shapedScenario(tr *vh.Trace, rnd *rand.Rand, n int, nother int, style nasty
 		}
 		// a few changes of A's own keys (combine in place with the previous output slot)
 		for i := rnd.Intn(3); i > 0; i-- {
-			rk = append(rk, aRanks[rnd.Intn(len(aRanks))])
+			if r := aRanks[rnd.Intn(len(aRanks))]; r > quiet {
+				rk = append(rk, r)
+			}
 		}
-		if rnd.Intn(4) == 0 {
+		if rnd.Intn(4) == 0 && !uniform {
 			rk = append(rk, pickRanks(rnd, s.K, 13+rnd.Intn(20), true)...)
 		}
 		sort.Ints(rk)
